@@ -59,6 +59,7 @@ func C20(ctx *core.Ctx, r *core.Report) {
 	c20GlobalWrites(ctx, r, reachAll, inScope)
 	c20UseMutatesMeta(ctx, r, reachUse, inScope)
 	c20LazyCache(ctx, r)
+	c20ConstructorsFresh(ctx, r)
 }
 
 // addrRoot walks an address expression back to its base object.
@@ -590,3 +591,58 @@ func freshAlloc(v ssa.Value, depth int) bool {
 	}
 	return false
 }
+
+// c20ConstructorsFresh: constructors hand out objects allocated by the call.
+// A constructor that returns a package-level or cached object turns per-load /
+// per-request state (feature sets, lexers, constraint sets, browsers) into
+// process-wide shared state.
+func c20ConstructorsFresh(ctx *core.Ctx, r *core.Report) {
+	n := 0
+	for _, pkg := range []string{"meta", "parser", "node", "xpath", "nodeutil"} {
+		sp := ctx.SPkg(pkg)
+		if sp == nil {
+			continue
+		}
+		var names []string
+		for name := range sp.Members {
+			names = append(names, name)
+		}
+		sort.Strings(names)
+		for _, name := range names {
+			f, ok := sp.Members[name].(*ssa.Function)
+			if !ok || len(f.Blocks) == 0 {
+				continue
+			}
+			isCtor := strings.HasPrefix(name, "New") || strings.HasPrefix(name, "AllFeatures") || strings.HasPrefix(name, "Features") || name == "lex"
+			if !isCtor {
+				continue
+			}
+			res := f.Signature.Results()
+			if res.Len() == 0 {
+				continue
+			}
+			t := res.At(0).Type()
+			switch t.Underlying().(type) {
+			case *types.Pointer, *types.Interface:
+			default:
+				continue
+			}
+			// values (val.Value) are immutable data, not state
+			if pkg == "node" && strings.HasPrefix(name, "NewValue") {
+				continue
+			}
+			n++
+			ok2, why := freshResult(f, 0, 0)
+			key := pkg + "." + name
+			if reason, t := c20FreshTriage[key]; t && !ok2 {
+				r.Ob("constructors-fresh", key, ctx.Pos(f.Pos()), true, "triaged: "+reason)
+				continue
+			}
+			r.Ob("constructors-fresh", key, ctx.Pos(f.Pos()), ok2,
+				"the constructor does not allocate what it returns ("+why+"): every caller gets the same object, whose state is then shared between loads / requests / goroutines")
+		}
+	}
+	r.Floor("constructors-fresh", n, 15)
+}
+
+var c20FreshTriage = map[string]string{}
